@@ -10,6 +10,11 @@ def exec (st : State) (toks : List String) : State × List String :=
     match unhxList hs with
     | some heads => ({ st with iso := (r, heads) :: st.iso.filter (fun p => p.1 != r), txs := st.txs.filter (fun p => p.1 != r) }, ["ok"])
     | none => (st, ["bad-input"])
+  -- reads on a copy isolated at a heads list repeating one hash (no transaction open): the state at {h}
+  | ["crdt.x.isodup", r, h, _k] =>
+    match unhxList h with
+    | some [hh] => (st, [showDoc ((getReplica st r).at [hh]).ops])
+    | _ => (st, ["bad-input"])
   -- direct oracle of the harness on the implementation alone (C29): nothing to predict
   | ["crdt.x.isocheck", _] => (st, ["ok"])
   | ["crdt.x.integrate", r] =>
